@@ -8,7 +8,8 @@ Record desc := mkDesc {
   d_reduce : bool;         (* '__reduce__' in the class dict *)
   d_getstate : bool;       (* '__getstate__' in the class dict *)
   takes_remote : bool;     (* its signature has a parameter named 'remote' *)
-  has_varkw : bool         (* its signature has a **kwargs parameter *)
+  has_varkw : bool;        (* its signature has a **kwargs parameter *)
+  sig_unavailable : bool   (* inspect.signature fails on it (implemented in C) *)
 }.
 
 Definition sstate := (bool * bool)%type.          (* (allow_remote, has_remote) *)
